@@ -11,11 +11,11 @@ from vmc import core, bfs, enum
 from props import chanflow
 
 PID = "C20"
-SHARD_WALL_CAP = 60     # seconds per BFS shard; reported as a cap when hit
+SHARD_WALL_CAP = 40     # seconds per BFS shard; reported as a cap when hit
 META = {
     "level": "model_checking",
     "technique": "explicit-state BFS over operation histories on real Channel objects (prefix replay, canonical state merging)",
-    "text": "Every history up to depth d (quick 4 / thorough 5) over send/send_stderr/recv/recv_stderr with threshold-class "
+    "text": "Every history up to depth d (quick 4 / thorough 6, 5 on the larger configurations) over send/send_stderr/recv/recv_stderr with threshold-class "
             "sizes, deliveries in both directions and peer EXTENDED_DATA with type codes 0..5, for window/packet "
             "configurations around the threshold classes, from the initial state and from injected non-initial "
             "states on the conservation frontier; in every state: no stuck state; from every new state the fair "
@@ -47,11 +47,13 @@ def configs(tier):
                     so = W - ow - fl - bu
                     if so < 0 or so > T:      # in_window_sofar never exceeds the threshold at rest
                         continue
+                    if fl > (8 << 20) or bu > (8 << 20):
+                        continue              # in-flight / buffered bytes are materialised: keep them < 8 MiB
                     k = (ow, fl, bu, so)
                     if k in seen:
                         continue
                     seen.add(k)
-                    out.append((W, P, W, k, ()))
+                    out.append((W, P, min(W, 3 << 20), k, ()))   # data still to send: bounded (the continuation must finish)
     return out
 
 
@@ -129,7 +131,9 @@ def run_item(item, acc):
             return False
         seen.add(k)
         n_states += 1
-        acc.nt((cfg[:3], str(inject), k[:5]))
+        if n_states <= 400:
+            # distinct non-trivial cases are counted per shard up to a bound (memory): the canonical counters
+            acc.nt((cfg[:3], str(inject), k[:5]))
         v = closure(hist)
         if v is not None:
             acc.violation(v[0], {"cfg": list(map(str, cfg)), "history": describe(hist), "why": v[1]},
@@ -186,18 +190,20 @@ def main(tier):
                     "canonical states (config, counters)",
                     ["ChannelPair dispatch = the run loop's handler lookup, replicated by the harness",
                      "sizes drawn from threshold classes {1, T, T+1, P-64, all}"])
-    depth = 4 if tier == "quick" else 5
+    depth = 4 if tier == "quick" else 6
     inj_depth = 3 if tier == "quick" else 4
     items = []
+    deep = {(32768, 32768), (32769, 4096)}
     for c in configs(tier):
         if c[3] is None:
+            d_c = depth if (tier == "quick" or (c[0], c[1]) in deep and not c[4]) else depth - 1
             # shard the BFS on its first event (states are merged within a shard only)
             evs = chanflow.alphabet(c[0], c[1], c[4], small=bool(c[4]))
             items.append((tier, c, 0, ()))            # the initial state itself
             for e in evs:
                 if e[0] in ("dA", "dB"):
                     continue                          # nothing in flight initially
-                items.append((tier, c, depth, (e,)))
+                items.append((tier, c, d_c, (e,)))
         else:
             items.append((tier, c, inj_depth, ()))
     ck.extra["configs"] = len(items)
